@@ -3,6 +3,7 @@ CONSTANTS
   Schemes = {"groupkey", "sealedgk", "pskseed", "topicmsg", "sealedtopic"}
   MaxTamper = 2
   HashModel = "tuple"
-  PLens = {0, 1, 16, 17, 48}
+  PLens = {0, 1, 16, 17, 48, 4097}
+  DataLens = {0}
 INVARIANTS AcceptIffUnchanged IdAgreement NoBothEnds OnlyRightful Emit
 CHECK_DEADLOCK FALSE
